@@ -80,6 +80,124 @@ fn solo(v: &Value) -> Result<CaseReport, String> {
     run_solo(v, report)
 }
 
+/// Validation of the oracle itself (DESIGN 3.3): negative images, one per rule family,
+/// built from a synthesized valid image; the checker must accept the base image and report
+/// exactly the expected rule for each damaged one. A failure is a harness error (exit 2).
+fn checker_selftest(_ctx: &Ctx, ev: &mut Value) -> Option<Violation> {
+    use crate::props::c16::{apply_dev, Dev};
+    use crate::refparse::{self, ENDOFCHAIN, FREESECT};
+    use crate::synth::*;
+    let pool: Vec<String> = ["alpha", "Beta", "c", "dd", "eee", "Ffff", "g", "hh", "big", "mini"].iter().map(|s| s.to_string()).collect();
+    let mut items = Vec::new();
+    for i in 0..9u16 {
+        let kind = if i % 4 == 3 { ItemKind::Storage { clsid: [i as u8; 16], created: 5, modified: 6 } } else { ItemKind::Stream { data: crate::ops::DataSpec { len: [100u32, 5000, 64, 9000, 300, 4096, 1, 2000, 700][i as usize], seed: i as u8 } } };
+        items.push(Item { parent: 0, name: i * 6553 + 100, state: 0, kind });
+    }
+    let spec = TreeSpec { root_clsid: [0; 16], root_state: 0, root_created: 0, root_modified: 0, items };
+    let model = build_model(&spec, &pool);
+    let mut problems: Vec<String> = Vec::new();
+    let mut checked = 0;
+    for version in [3u8, 4u8] {
+        let (base, _) = synthesize(&model, version, &[7, 9000, 40000, 123, 60000, 2, 31000], 0);
+        let parsed = match refparse::parse(&base) {
+            Ok(p) => p,
+            Err(e) => {
+                problems.push(format!("base image V{} does not parse: {}", version, e));
+                continue;
+            }
+        };
+        if !parsed.rules.is_empty() {
+            problems.push(format!("base image V{} is rejected: {:?}", version, parsed.rules));
+            continue;
+        }
+        let devs: Vec<(Dev, &str)> = vec![
+            (Dev::RedRed, "R28-red-red"),
+            (Dev::StreamClsid, "R29-stream-clsid"),
+            (Dev::StreamCreated, "R29-stream-times"),
+            (Dev::NumFatPlus, "R06-num-fat"),
+            (Dev::NumMinifatOff, "R08-num-minifat"),
+            (Dev::FatSectorUnmarkedEnd, "R12-fatsect-mark"),
+            (Dev::UnterminatedName, "R27-name-terminator"),
+            (Dev::ZeroPadFat, "R13-fat-beyond-eof"),
+        ];
+        for (d, rule) in devs {
+            let mut img = base.clone();
+            if !apply_dev(&mut img, &parsed, d, 1) {
+                problems.push(format!("V{}: deviation {:?} not applicable to the self-test image", version, d));
+                continue;
+            }
+            let ids: Vec<String> = refparse::check(&img).into_iter().map(|r| r.0).collect();
+            checked += 1;
+            if !ids.iter().any(|r| r == rule) {
+                problems.push(format!("V{}: {:?} should violate {} but the checker reports {:?}", version, d, rule, ids));
+            }
+        }
+        // hand-made damage for the remaining rule families
+        let put32 = |img: &mut Vec<u8>, off: usize, v: u32| img[off..off + 4].copy_from_slice(&v.to_le_bytes());
+        let per = parsed.sector_len / 4;
+        let fat_off = |i: usize| parsed.sector_off(parsed.difat[i / per]) + 4 * (i % per);
+        let mut cases: Vec<(&str, Vec<u8>)> = Vec::new();
+        {
+            let mut img = base.clone();
+            let l = img.len();
+            img.truncate(l - parsed.sector_len / 2);
+            cases.push(("R14-file-length", img));
+        }
+        if version == 3 {
+            let mut img = base.clone();
+            put32(&mut img, 40, 1);
+            cases.push(("R05-num-dir", img));
+        }
+        if let Some(free) = (0..parsed.nsectors).find(|&i| parsed.fat[i] == FREESECT) {
+            let mut img = base.clone();
+            put32(&mut img, fat_off(free), ENDOFCHAIN);
+            cases.push(("R19-orphan-sector", img));
+        }
+        let bigs: Vec<usize> = parsed.entries.iter().enumerate().filter(|(_, e)| e.typ == 2 && e.size >= 4096).map(|(i, _)| i).collect();
+        if bigs.len() >= 2 {
+            let mut img = base.clone();
+            let other = parsed.entries[bigs[1]].start;
+            put32(&mut img, parsed.entry_offsets[bigs[0]] + 116, other);
+            cases.push(("R16-cross-link", img));
+            let mut img = base.clone();
+            let off = parsed.entry_offsets[bigs[0]] + 120;
+            let size = parsed.entries[bigs[0]].size + parsed.sector_len as u64;
+            img[off..off + 8].copy_from_slice(&size.to_le_bytes());
+            cases.push(("R20-chain-length", img));
+        }
+        if let Some(un) = parsed.entries.iter().position(|e| e.typ == 0) {
+            let mut img = base.clone();
+            img[parsed.entry_offsets[un] + 64] = 2;
+            cases.push(("R31-unallocated-entry-not-blank", img));
+        }
+        if let Some((i, e)) = parsed.entries.iter().enumerate().find(|(i, e)| *i > 0 && e.typ != 0 && e.left != refparse::NOSTREAM && e.right != refparse::NOSTREAM) {
+            let mut img = base.clone();
+            put32(&mut img, parsed.entry_offsets[i] + 68, e.right);
+            put32(&mut img, parsed.entry_offsets[i] + 72, e.left);
+            cases.push(("R26-bst-order", img));
+        }
+        if let Some((i, _)) = parsed.entries.iter().enumerate().find(|(_, e)| e.typ == 2 && e.size > 64 && e.size < 4096) {
+            let mut img = base.clone();
+            let off = parsed.entry_offsets[i] + 120;
+            img[off..off + 8].copy_from_slice(&1u64.to_le_bytes());
+            cases.push(("R21-mini-chain-length", img));
+        }
+        for (rule, img) in cases {
+            let ids: Vec<String> = refparse::check(&img).into_iter().map(|r| r.0).collect();
+            checked += 1;
+            if !ids.iter().any(|r| r == rule) {
+                problems.push(format!("V{}: hand-made damage should violate {} but the checker reports {:?}", version, rule, ids));
+            }
+        }
+    }
+    ev["coverage"]["checker_selftest"] = serde_json::json!({"negative_images_checked": checked, "problems": problems});
+    if problems.is_empty() {
+        None
+    } else {
+        Some(Violation { key: "harness|checker_selftest".into(), detail: problems.join("; "), case: Value::Null, trace: vec![] })
+    }
+}
+
 pub fn def() -> PropDef {
     PropDef {
         id: "C03",
@@ -91,7 +209,7 @@ pub fn def() -> PropDef {
         worker,
         solo,
         hang_cpu_s: 60.0,
-        extra: None,
+        extra: Some(checker_selftest),
         confirm_known: false,
     }
 }
